@@ -71,6 +71,21 @@ class C07(Prop):
             oth = [[None, e[1], e[2], LB] for e in rng.sample(s, min(3, len(s)))]
             for b in storelib.BACKENDS:
                 out.append(("random-stream", {"backend": b, "pt": pt, "stream": s, "other": oth}))
+        # the bucket id was used, deleted and re-created before the stream arrives; and streams that begin at the epoch
+        for s_ in grid[:: max(1, len(grid) // ctx.pick(150, 2000))]:
+            for b in storelib.BACKENDS:
+                out.append(("reuse-stream", {"backend": b, "pt": rng.choice([0, 1, 2]), "stream": s_, "other": other, "reuse": True}))
+        for _ in range(ctx.pick(60, 1500)):
+            m = rng.randint(1, 6)
+            t, end, s_ = 0, 0, []
+            for i in range(m):
+                if i:
+                    t += rng.choice([1000, U, 2 * U])
+                d = max(end - t, 0) + rng.choice([0, 0, 1000, U])
+                end = t + d
+                s_.append([None, t, d, rng.choice([LA, LA, LB])])
+            for b in storelib.BACKENDS:
+                out.append(("epoch-stream", {"backend": b, "pt": rng.choice([0, 1, 2]), "stream": s_, "other": [[None, 0, 0, LB], [None, U, U, LA]]}))
         # day-scale durations, gaps and pulsetimes (timedelta keeps days, seconds and microseconds apart)
         DAY = 86_400 * U
         for _ in range(ctx.pick(60, 1500)):
@@ -95,6 +110,12 @@ class C07(Prop):
             m = {"type": "t", "client": "c", "hostname": "h", "created_us": T0}
             for b in ("hb", "other"):
                 ds.create_bucket(b, m["type"], m["client"], m["hostname"], created=storelib.us_to_dt(T0))
+            if case.get("reuse"):
+                # the bucket id had an earlier life: written to, deleted, created again
+                ds["hb"].insert(mk_event([None, T0, 1000, LA]))
+                ds["hb"].insert([mk_event([None, T0 + U, 0, LB])])
+                ds.delete_bucket("hb")
+                ds.create_bucket("hb", m["type"], m["client"], m["hostname"], created=storelib.us_to_dt(T0))
             ds["other"].insert([mk_event(e) for e in case["other"]])
             other_before = storelib.dump(store)["other"]
             bucket = ds["hb"]
@@ -121,17 +142,21 @@ class C07(Prop):
         be = case["backend"]
         pre = f"store {be} "
         m = {"type": "t", "client": "c", "hostname": "h", "created_us": T0}
-        return ["store reset", pre + f"create {hx('hb')} {storelib.p_meta(m)}", pre + f"create {hx('other')} {storelib.p_meta(m)}",
+        reuse = []
+        if case.get("reuse"):
+            reuse = [pre + f"insert {hx('hb')} {p_ev([None, T0, 1000, LA])}", pre + f"bulk {hx('hb')} {p_list([[None, T0 + U, 0, LB]], p_ev)}",
+                     pre + f"delbucket {hx('hb')}", pre + f"create {hx('hb')} {storelib.p_meta(m)}"]
+        return ["store reset", pre + f"create {hx('hb')} {storelib.p_meta(m)}", pre + f"create {hx('other')} {storelib.p_meta(m)}"] + reuse + [
                 pre + f"bulk {hx('other')} {p_list(case['other'], p_ev)}",
                 pre + f"hbloop {hx('hb')} {pulsetime_us(case['pt'])} {p_list(case['stream'], p_ev)}",
                 pre + "dump",
                 f"hb reduce {pulsetime_us(case['pt'])} {p_list(case['stream'], p_ev)}"]
 
     def model_out(self, case, answers):
-        if not answers[4].startswith("ok"):
-            return {"err": answers[4]}
-        d = storelib.parse_dump(answers[5])
-        t = answer(answers[6])
+        if not answers[-3].startswith("ok"):
+            return {"err": answers[-3]}
+        d = storelib.parse_dump(answers[-2])
+        t = answer(answers[-1])
         red = t.list(t.ev)
         return {"final": [e[1:] for e in sorted(d["hb"]["events"], key=lambda e: e[1])],
                 "ids": sorted(e[0] for e in d["hb"]["events"]), "reduce": [e[1:] for e in red]}
